@@ -76,7 +76,7 @@ def _check_validator(ctx: Ctx, rule: str, m: pf.Module, fname: str, param_index:
     base = f'{m.rel}::{fname}'
     detail = dict(cmp.describe(), idioms=tr.idioms, regex=[{k: u[k] for k in ('call', 'mode', 'pattern')} for u in tr.regex_uses],
                   specification=spec.label)
-    ctx.check(cmp.only_a is None, rule, f'{base}::accepts only {plural}',
+    ctx.check(cmp.only_a is None, rule, f'{base}::accepts only {what}',
               f'accepts {_show(cmp.only_a)}, which is not {what} (specification {spec.label})'
               + (f'; the decision is made by {uses}' if uses else '')
               + ('; `match` with `$` also succeeds just before one trailing newline - use fullmatch' if any(
